@@ -87,7 +87,7 @@ namespace sim
     {
     public:
         sim_block_allocator(std::size_t block_size, int owner = OWNER_FIRST, unsigned vary = 0) noexcept
-        : base_(block_size), owner_(owner), vary_(vary), n_(0)
+        : base_(block_size), owner_(owner), vary_(vary), n_(0), floor_(block_size)
         {
         }
 
@@ -98,6 +98,7 @@ namespace sim
             if (!p)
                 throw sim_bad_alloc();
             ++n_;
+            floor_ = size;
             return {p, size};
         }
         void deallocate_block(foonathan::memory::memory_block b) noexcept
@@ -108,10 +109,13 @@ namespace sim
         {
             if (!vary_)
                 return base_;
-            // deterministic pseudo-random sequence in [base, 3*base), multiple of 16
+            // deterministic pseudo-random, non-decreasing sequence of irregular sizes (multiples of 16): the
+            // library reads next_block_size() as "the maximum I can serve next", which a shrinking sequence
+            // would turn into refusals of its own earlier arrays - an exotic BlockAllocator, left out
             std::uint64_t h = (n_ + 1) * 0x9e3779b97f4a7c15ull ^ vary_;
             h ^= h >> 29;
-            return base_ + (h % (2 * base_)) / 16 * 16;
+            auto s = base_ + (h % (2 * base_)) / 16 * 16;
+            return s < floor_ ? floor_ : s;
         }
         int owner() const noexcept
         {
@@ -122,6 +126,6 @@ namespace sim
         std::size_t base_;
         int         owner_;
         unsigned    vary_;
-        std::size_t n_;
+        std::size_t n_, floor_;
     };
 } // namespace sim
